@@ -6,6 +6,8 @@ import (
 	"bufio"
 	"flag"
 	"fmt"
+	"io"
+	"log"
 	"os"
 	"path/filepath"
 	"runtime/debug"
@@ -64,6 +66,7 @@ func main() {
 		fmt.Fprintln(os.Stderr, "usage: wsharness [flags] <suite>")
 		os.Exit(2)
 	}
+	log.SetOutput(io.Discard) // the library logs malformed origin patterns
 	name := flag.Arg(0)
 	s, ok := suites[name]
 	if !ok {
